@@ -2,7 +2,7 @@
 import z3
 
 from . import ops
-from .values import (Obj, Opt, SStr, Hole, PyList, PyDict, SymSeq, Model, Unsupported, Splice,
+from .values import (OptObj, Lazy, Obj, Opt, SStr, Hole, PyList, PyDict, SymSeq, Model, Unsupported, Splice,
                      is_number, is_bool, is_strlike, next_oid, to_real)
 
 
@@ -18,6 +18,8 @@ def deep_copy(v, memo=None):
         for k, x in v.fields.items():
             o.fields[k] = deep_copy(x, memo)
         return o
+    if isinstance(v, OptObj):
+        return OptObj(v.isnone, deep_copy(v.obj, memo))
     if isinstance(v, PyList):
         if id(v) in memo:
             return memo[id(v)]
@@ -59,6 +61,21 @@ def struct_eq(a, b, depth=0):
         raise Unsupported("struct_eq depth")
     if a is b:
         return True
+    if isinstance(a, Lazy):
+        a = a.force()
+    if isinstance(b, Lazy):
+        b = b.force()
+    if isinstance(a, OptObj) or isinstance(b, OptObj):
+        if a is None:
+            return b.isnone
+        if b is None:
+            return a.isnone
+        if isinstance(a, OptObj) and isinstance(b, OptObj):
+            return ops.Or(ops.And(a.isnone, b.isnone),
+                          ops.And(ops.Not(a.isnone), ops.Not(b.isnone), struct_eq(a.obj, b.obj, depth + 1)))
+        if isinstance(b, OptObj):
+            a, b = b, a
+        return ops.And(ops.Not(a.isnone), struct_eq(a.obj, b, depth + 1))
     if isinstance(a, Opt) or isinstance(b, Opt):
         if a is None:
             return b.isnone
